@@ -444,19 +444,39 @@ def fitness_check(loaded_objs, limit=8):
     return True, ''
 
 
+class ImplRaised(Exception):
+    """the implementation raised while saving / loading a history (stage, exception text)"""
+
+
 def observe(history, tok=None, pre_text=None, legacy=False):
-    """save -> load -> save of a live history; everything canonicalised for the model"""
+    """save -> load -> save of a live history; everything canonicalised for the model.
+    ImplRaised when the first save or the load raises; a raising second save is recorded in the
+    observation (the property then fails on a complete case)"""
     tok = tok or Tok()
     o = {'pre': parse_ehist(pre_text, tok, legacy=True) if pre_text is not None else None}
     o['mem'] = export_hist(history, tok)
-    text = history.save()
+    try:
+        text = history.save()
+    except Exception as ex:
+        raise ImplRaised('save raises %s: %s' % (type(ex).__name__, ex))
     o['json'] = parse_ehist(text, tok)
-    loaded = OptHistory.load(text)
+    try:
+        loaded = OptHistory.load(text)
+    except Exception as ex:
+        raise ImplRaised('load of the saved history raises %s: %s' % (type(ex).__name__, ex))
     if not isinstance(loaded, OptHistory):
         raise ShapeError('load returned %r' % type(loaded))
     o['loaded'] = export_hist(loaded, tok)
-    text2 = loaded.save()
-    o['json2'] = parse_ehist(text2, tok)
+    try:
+        text2 = loaded.save()
+        o['json2'] = parse_ehist(text2, tok)
+        o['resave_raised'] = None
+    except ShapeError:
+        raise
+    except Exception as ex:
+        text2 = None
+        o['json2'] = o['json']
+        o['resave_raised'] = '%s: %s' % (type(ex).__name__, ex)
     o['text_equal'] = (text == text2)
     o['fitness_ok'], o['fitness_detail'] = fitness_check(o['loaded']['_objects'])
     o['text'] = text
@@ -470,6 +490,7 @@ def summary(o, desc):
             'objects': len(m['heap']), 'pool': len(o['json']['pool']),
             'intermediate': sum(1 for r in o['json']['pool'] if r['ng'] is None),
             'loaded_objects': len(o['loaded']['heap']), 'text_equal': o['text_equal'], 'fitness_ok': o['fitness_ok'],
+            'resave_raised': o.get('resave_raised'),
             'fitness_detail': o.get('fitness_detail', '')}
 
 
@@ -869,7 +890,9 @@ def evaluate(ctx, group, items):
         if not ho and guard:
             # (outside the guard - two live objects with one uid, uid strings as parents - the property does not apply)
             ctx.violate(group, {'recipe': case, 'summary': s}, 'round trip does not preserve the history: ' + (
-                s['fitness_detail'] if not o['fitness_ok'] else ('re-saved text differs' if not o['text_equal'] else 'content or sharing differs')))
+                s['fitness_detail'] if not o['fitness_ok'] else (
+                    ('saving the loaded history raises ' + o['resave_raised']) if o.get('resave_raised') else
+                    ('re-saved text differs' if not o['text_equal'] else 'content or sharing differs'))))
     return res
 
 
@@ -933,6 +956,9 @@ def run(ctx):
         except ShapeError as ex:
             ctx.disagree('real-runs', {'cfg': cfg}, 'unexpected shape: %s' % ex)
             continue
+        except ImplRaised as ex:
+            ctx.violate('real-runs', {'recipe': cfg}, 'history of a real run: %s' % ex)
+            continue
         items.append(('real run %s' % cfg['optimiser'], cfg, o))
         if i < 2:
             ctx.sample(summary(o, 'real run %s' % cfg['optimiser']))
@@ -957,6 +983,10 @@ def run(ctx):
                 o = observe(h)
             except ShapeError as ex:
                 ctx.disagree('synthetic', {'recipe': rc}, 'unexpected shape: %s' % ex)
+                continue
+            except ImplRaised as ex:
+                if 'out of domain' not in desc:
+                    ctx.violate('synthetic', {'recipe': rc, 'desc': desc}, 'synthetic history: %s' % ex)
                 continue
             items.append((desc, rc, o))
             if desc.startswith('deep') or desc.startswith('shared parent with'):
@@ -995,6 +1025,9 @@ def run(ctx):
         except ShapeError as ex:
             ctx.disagree('legacy', {'file': fn}, 'unexpected shape: %s' % ex)
             continue
+        except ImplRaised as ex:
+            ctx.violate('legacy', {'file': fn}, 'history loaded from the stored file: %s' % ex)
+            continue
         except Exception as ex:
             ctx.violate('legacy', {'file': fn}, 'stored legacy history does not load: %s: %s' % (type(ex).__name__, ex))
             continue
@@ -1014,6 +1047,9 @@ def run(ctx):
             o = observe(h, pre_text=ltext)
         except ShapeError as ex:
             ctx.disagree('legacy', {'rewritten': case}, 'unexpected shape: %s' % ex)
+            continue
+        except ImplRaised as ex:
+            ctx.violate('legacy', {'rewritten': case, 'plain_lists': plain}, 'history loaded from the earlier format: %s' % ex)
             continue
         except Exception as ex:
             ctx.violate('legacy', {'rewritten': case, 'plain_lists': plain},
